@@ -11,6 +11,7 @@ LEAN_HELPERS = ['MV.Lemmas.Slice', 'MV.Lemmas.SliceSound', 'MV.Model.Slice', 'MV
                 'MV.Model.Basic']
 DRIVERS = ['C12']
 GEN = ['Tables', 'Library']
+SRC_TIE = ['SrcSlice']   # py2lean source image of get_melody_between proved equal to the model (MV/Props/TieSlice.lean)
 RULE = ('random scores (1-4 chords, 1-3 parts, rests / continuations anywhere, relative notes, dynamics, a drums part '
         'now and then, 12% with one or two chords without parts (duration 0); 80% with every part as long as its chord) '
         'x windows [a, b) whose ends are drawn from note '
@@ -310,6 +311,9 @@ def correspondence(ctx):
                                  'equal' if equal_parts(s) else 'unequal'],
                       'nontrivial': d > 0})
     ctx.compare('repeat', 'C12', cases)
+    # kernel-level streams of the source tie (DESIGN §9.6)
+    import srctie
+    srctie.run(ctx, SRC_TIE)
 
 # ----------------------------------------------------------------------------- the property itself (oracle)
 
